@@ -543,19 +543,19 @@ theorem c14_still_serves (cfg : Cfg) (hfix : cfg.echoNonBlocking = true) (l l' :
   · rw [p1.2.2, p0.2.2]
 
 /-- the same for every finite history of requests (corrected variant) -/
-def run (cfg : Cfg) (n : Node) : List (Layer × DkgReq) → Node
+def runReqs (cfg : Cfg) (n : Node) : List (Layer × DkgReq) → Node
   | [] => n
-  | (l, r) :: rest => run cfg (handle cfg l n r).1 rest
+  | (l, r) :: rest => runReqs cfg (handle cfg l n r).1 rest
 
 theorem c14_still_serves_histories (cfg : Cfg) (hfix : cfg.echoNonBlocking = true) (n : Node) (hh : Healthy n)
-    (rs : List (Layer × DkgReq)) : Healthy (run cfg n rs) ∧ (run cfg n rs).phase.storeOpen = n.phase.storeOpen := by
+    (rs : List (Layer × DkgReq)) : Healthy (runReqs cfg n rs) ∧ (runReqs cfg n rs).phase.storeOpen = n.phase.storeOpen := by
   induction rs generalizing n with
   | nil => exact ⟨hh, rfl⟩
   | cons x rest ih =>
     obtain ⟨l, r⟩ := x
     have st := stepok_handle cfg l n r hh (Or.inl hfix)
     have := ih _ st.1
-    simp only [run]
+    simp only [runReqs]
     exact ⟨this.1, by rw [this.2, storeOpen_legal _ _ st.2.2.2]⟩
 
 
@@ -567,7 +567,7 @@ theorem tie_echo_nonblocking : Gen.echoPassNonBlocking = true ∧ Gen.echoPassSe
 
 /-- **c14_code_still_serves**: the full statement for the code as it is now, for every finite history of requests -/
 theorem c14_code_still_serves (n : Node) (hh : Healthy n) (rs : List (Layer × DkgReq)) :
-    Healthy (run codeCfg n rs) ∧ (run codeCfg n rs).phase.storeOpen = n.phase.storeOpen :=
+    Healthy (runReqs codeCfg n rs) ∧ (runReqs codeCfg n rs).phase.storeOpen = n.phase.storeOpen :=
   c14_still_serves_histories codeCfg tie_echo_nonblocking.1 n hh rs
 
 /-- **c14_still_serves_partial** (the code as it is): the same conclusion under the hypothesis the proof forces —
@@ -598,7 +598,7 @@ def signedBundlePacket : DkgReq :=
   .packet (some ⟨some ⟨.known, .stranger, .b4⟩, .dkg (some ⟨some ⟨some .known, .resp (some ⟨false, true, true⟩)⟩⟩)⟩)
 
 /-- the node after a completed DKG and three accepted bundles -/
-def n3 : Node := run asIs (Node.init .complete) (List.replicate 3 (.proc, signedBundlePacket))
+def n3 : Node := runReqs asIs (Node.init .complete) (List.replicate 3 (.proc, signedBundlePacket))
 
 /-- **c14_still_serves_counterexample** (the code as it is): after a completed DKG, three such bundles are accepted; the
 fourth never returns, leaves `d.lock` and the broadcaster's mutex held, and from then on a gossip packet and a DKG
@@ -610,7 +610,7 @@ theorem c14_still_serves_counterexample :
     (handle asIs .proc (handle asIs .proc n3 signedBundlePacket).1 probePacket).2 = .deadlock ∧
     (handle asIs .proc (handle asIs .proc n3 signedBundlePacket).1 probeBroadcast).2 = .deadlock ∧
     (handle asIs .proc n3 probePacket).2 = .err ∧
-    (handle fixed .proc (run fixed (Node.init .complete) (List.replicate 3 (.proc, signedBundlePacket))) signedBundlePacket).2 = .ok := by
+    (handle fixed .proc (runReqs fixed (Node.init .complete) (List.replicate 3 (.proc, signedBundlePacket))) signedBundlePacket).2 = .ok := by
   decide
 
 /-- the overflow of the broadcaster's channel is the ONLY way a request wedges the model (as-is variant): if a healthy
